@@ -75,6 +75,7 @@ CLASSES = {
     'read_k': b'read m:k', 'change_k': b'change m:k 1', 'read_broken': b'read broken:p',
     'change_broken': b'change broken:p 1', 'do_broken': b'do broken:cmd', 'read_m': b'read m',
     'change_m': b'change m 5', 'do_stop': b'do m:stop', 'change_t': b'change m:t "\xc3\xa9\xe2\x82\xac \\u00fc"',
+    'ping_long': b'ping ' + b'n' * 1500,                  # a reply longer than a small send buffer
     'long_valid_3k': b'change m:s "' + b'b' * 3000 + b'"',
     'read_t': b'read m:t', 'surrogate_t': b'change m:t "\\ud800 \\udc00"',
 }
@@ -365,7 +366,8 @@ class FakeSocket:
     """recv yields the scripted segments (never more than asked for), then b''; None = time-out, RESET = error;
     the `failat`-th sendall writes half of its data and fails"""
 
-    def __init__(self, segments, role='main', active=False, failat=None, failexc='pipe'):
+    def __init__(self, segments, role='main', active=False, failat=None, failexc='pipe', sndspace=1 << 20):
+        self.sndspace, self.evt = sndspace, None
         self.segs = [s for s in segments if s is None or s]
         self.role = role
         self.active = active
@@ -432,25 +434,35 @@ class FakeSocket:
                 self.world.raw.append([x[:80].decode('latin-1') for x in parts])
         return piece
 
-    def sendall(self, data):
+    def send(self, data):
+        """like a socket with a time-out: accepts what fits into the free space of the send buffer (the peer
+        drains it between our calls - with a small `sndspace` a slowly reading peer) and returns the count"""
         self.sends += 1
         if self.failat is not None and self.sends == self.failat + 1 and not self.failed:
-            self.failed = True          # half of the line is on the wire, the rest cannot be written
+            self.failed = True          # part of the line may be on the wire, the rest cannot be written
             self.world.events.append({'ev': 'peer', 'what': 'deaf'} if self.role == 'main' else {'ev': 'other_fail'})
             self.world.raw.append('send fails: ' + self.failexc)
             raise FAILS[self.failexc](32, 'send failed')
-        evt = None
-        if bytes(data[:12]) == b'error_update':
-            # event or answer to a line "update ..."?  the answer is sent by the request loop itself, an event
-            # passes through the dispatcher (broadcast / activate): look at who is calling
-            f, evt = sys._getframe(1), False
-            while f is not None and not evt:
-                evt = f.f_code.co_filename.endswith('protocol/dispatcher.py')
-                f = f.f_back
-        parts = (self.outacc + bytes(data)).split(b'\n')
+        data = bytes(data)[:self.sndspace]
+        if not self.outacc:
+            self.evt = None
+            if data[:12] == b'error_update':
+                # event or answer to a line "update ..."?  the answer is sent by the request loop itself, an
+                # event passes through the dispatcher (broadcast / activate): look at who is calling
+                f, self.evt = sys._getframe(1), False
+                while f is not None and not self.evt:
+                    self.evt = f.f_code.co_filename.endswith('protocol/dispatcher.py')
+                    f = f.f_back
+        parts = (self.outacc + data).split(b'\n')       # judged on the bytes the peer receives
         self.outacc = parts.pop()
         for x in parts:
-            self._line(x, evt)
+            self._line(x, self.evt)
+        return len(data)
+
+    def sendall(self, data):
+        data = bytes(data)
+        while data:
+            data = data[self.send(data):]
 
     def _line(self, x, evt=None):
         o = a_out(x)
@@ -466,12 +478,13 @@ class FakeSocket:
         self.world.raw.append(x[:160].decode('latin-1'))
 
     def flush(self):
-        if self.outacc:
+        if self.outacc and not self.failed:      # (after a failed send the torn rest is expected)
             self._line(self.outacc)
-            self.outacc = b''
+        self.outacc = b''
 
 
-def run_stream(segments, hw='fin', other='idle', detailed=False, ctor=False, addr=0, failat=None, failexc='pipe'):
+def run_stream(segments, hw='fin', other='idle', detailed=False, ctor=False, addr=0, failat=None, failexc='pipe',
+               sndspace=1 << 20):
     """one connection fed with the segments, a second connection on the same dispatcher watching
     (idle, activated, or activated with a socket that fails when the next update is sent to it)"""
     w = World(hw, detailed)
@@ -481,7 +494,8 @@ def run_stream(segments, hw='fin', other='idle', detailed=False, ctor=False, add
     if other == 'broken':
         s2.failat = s2.sends
     del w.events[:], w.raw[:]
-    s1 = FakeSocket(segments, failat=failat, failexc=failexc)
+    s1 = FakeSocket(segments, failat=failat, failexc=failexc, sndspace=sndspace)
+    s2.sndspace = sndspace
     if ctor:
         w.serve_ctor(s1, ADDRS[addr % len(ADDRS)])
         s1.flush()
@@ -608,6 +622,7 @@ def _replay_framing(beh):
 
 # ---------------------------------------------------------------- spec -> code: line class sequences
 OTHERS = ['idle', 'active', 'broken']
+SNDSPACE = [1 << 20, 61, 4096]        # free space of the send buffer per send(): roomy / slowly reading peer / one page
 BURST = (b'ping ' + b'a' * 250 + b'\n') * 4 + (b'ping ' + b'b' * 255 + b'\n') * 4      # 1024 + 1044 bytes
 
 # byte streams whose length / line ends are placed relative to the read size (each under all segmentations)
@@ -628,7 +643,7 @@ def _replay_stream(item):
     stream, ref = STREAMS[name], None
     res = {'traces': [], 'raws': [], 'segs': []}
     for k, segs in enumerate(segmentations(stream, rnd)):
-        w, _ = run_stream(segs, other=OTHERS[(seed + k) % 3], ctor=k % 2 == 1, addr=seed + k)
+        w, _ = run_stream(segs, other=OTHERS[(seed + k) % 3], ctor=k % 2 == 1, addr=seed + k, sndspace=SNDSPACE[k % 3])
         if ref is None:
             ref = answers(w.events)
         else:
@@ -660,7 +675,8 @@ def _replay_classes(item):
         for k, segs in enumerate(segmentations(stream, rnd, sized)):
             # the other dimensions of a connection rotate with the segmentation: what the second connection
             # is, how the handler is driven (constructor like socketserver / step by step), the peer's address
-            w, s1 = run_stream(segs, hw=hw, other=OTHERS[(seed + k) % 3], detailed=detailed, ctor=k == 1, addr=seed + k)
+            w, s1 = run_stream(segs, hw=hw, other=OTHERS[(seed + k) % 3], detailed=detailed, ctor=k == 1, addr=seed + k,
+                               sndspace=SNDSPACE[k % 3])
             if s1.replies != len(seq) and not res['bad']:
                 res['bad'] = {'what': 'reply count', 'expected': len(seq), 'observed': s1.replies, 'seg': k, 'hw': hw}
             if ref is None:
@@ -680,7 +696,7 @@ def _replay_classes(item):
         # then another one ending inside a line; all 5 segmentations must give the same answers
         stream2, ref = BURST + stream, None
         for k, segs in enumerate(segmentations(stream2, rnd)):
-            w, s1 = run_stream(segs, other=OTHERS[(seed + k) % 3], ctor=k % 2 == 1, addr=seed + k)
+            w, s1 = run_stream(segs, other=OTHERS[(seed + k) % 3], ctor=k % 2 == 1, addr=seed + k, sndspace=SNDSPACE[k % 3])
             if s1.replies != len(seq) + 8 and not res['bad']:
                 res['bad'] = {'what': 'reply count', 'expected': len(seq) + 8, 'observed': s1.replies, 'seg': k,
                               'hw': 'burst'}
@@ -750,7 +766,7 @@ def _fuzz(seed):
     stream = b'\n'.join(lines) + (b'\n' if rnd.random() < 0.85 else b'')
     kw = {'hw': rnd.choice(['fin', 'fin', 'fin', 'nan', 'inf', 'err', 'exc']), 'other': rnd.choice(OTHERS),
           'detailed': rnd.random() < 0.2,          # Interface option detailed_errors
-          'ctor': rnd.random() < 0.5, 'addr': rnd.randrange(len(ADDRS))}
+          'ctor': rnd.random() < 0.5, 'addr': rnd.randrange(len(ADDRS)), 'sndspace': rnd.choice(SNDSPACE + [7, 1])}
     segs = list(segmentations(stream, rnd))
     segs = segs[rnd.choice([0, 1, 2, 2, 2] + list(range(3, len(segs))) * 3)]
     leave = rnd.random()
@@ -806,7 +822,7 @@ def _two_threads(seed):
     lines = [b'activate'] + [rnd.choice([b'ping x', b'describe', b'bogus', b'read zz:p', b'', b'ping'])
                              for _ in range(rnd.randint(2, 5))]     # nothing that needs the module's lock
     nupd = rnd.randint(2, 5)
-    frags, failed = [], []
+    frags, failed, partial = [], [], {}
     gate = {'req': threading.Semaphore(0), 'upd': threading.Semaphore(0)}
     idle = {'req': threading.Event(), 'upd': threading.Event()}
     seen = threading.Event()
@@ -820,10 +836,30 @@ def _two_threads(seed):
                 gate['req'].acquire()
             return FakeSocket.recv(self, n)
 
+        def send(self, data):
+            """the send buffer takes half a line per call; a caller that comes back with the rest completes it"""
+            me, data = threading.current_thread().name, bytes(data)
+            if partial.get(me) == data:
+                del partial[me]
+                frags.append({'ev': 'frag', 'th': me, 'half': 2, 'bytes': data.decode('latin-1')})
+                if plan['watch'] == me:
+                    seen.set()
+                return len(data)
+            half = max(1, len(data) // 2)
+            partial[me] = data[half:]
+            self.first_half(me, data[:half])
+            return half
+
         def sendall(self, data):
             me = threading.current_thread().name
             half = max(1, len(data) // 2)
-            frags.append({'ev': 'frag', 'th': me, 'half': 1, 'bytes': data[:half].decode('latin-1')})
+            self.first_half(me, data[:half])
+            frags.append({'ev': 'frag', 'th': me, 'half': 2, 'bytes': data[half:].decode('latin-1')})
+            if plan['watch'] == me:
+                seen.set()
+
+        def first_half(self, me, data):
+            frags.append({'ev': 'frag', 'th': me, 'half': 1, 'bytes': data.decode('latin-1')})
             if plan['interrupt'] and plan['V'] == me:
                 plan['interrupt'] = False
                 o = plan['O']
@@ -840,9 +876,6 @@ def _two_threads(seed):
                     raise BrokenPipeError(32, 'Broken pipe')
                 if plan['failafter'] is not None:
                     plan['failafter'] -= 1
-            frags.append({'ev': 'frag', 'th': me, 'half': 2, 'bytes': data[half:].decode('latin-1')})
-            if plan['watch'] == me:
-                seen.set()
 
     sock = Sock([x + b'\n' for x in lines])
     h = w.connect(sock)
@@ -1183,6 +1216,8 @@ def run(chk):
         mine = a_in(CLASSES[c])
         if req['act'] in ('LONG', 'NONASCII'):
             req = dict(req, act=mine['act'])
+        if req['spec'] == 'LONG':
+            req = dict(req, spec=mine['spec'])
         if mine != req:
             raise MachineryError(f'line class {c}: alpha_in(gamma) = {mine} but Wire!Cat says {req}')
     from frappy.errors import SECoPError
@@ -1233,9 +1268,14 @@ def run(chk):
         flush(30000)
 
     # 5 a second thread sends (LinesWhole) - real threads, sequentially in this process
-    res = [_two_threads(chk.seed * 31 + i) for i in range(30 if quick else 300)]
+    res, deferred = [], []
+    for i in range(30 if quick else 300):
+        try:
+            res.append(_two_threads(chk.seed * 31 + i))
+        except MachineryError as e:      # judged at the end: a misbehaving implementation must get its verdict
+            deferred.append(e)
     if not any(a['th'] != b['th'] for x in res for a, b in zip(x['raw'], x['raw'][1:])):
-        raise MachineryError('two-thread scenario never switched threads')
+        deferred.append(MachineryError('two-thread scenario never switched threads'))
     for x in res:
         chk.case(('T', x['seed']), True)
         if x['reason'] != 'returned':
@@ -1285,6 +1325,8 @@ def run(chk):
     flush()
     stage('final judge')
     faulthandler.cancel_dump_traceback_later()
+    if deferred and not chk.violations:
+        raise deferred[0]
     chk.assumptions += [
         'lines with action "_" (help text), "update", "log" are asynchronous / informational lines, not replies',
         'for "*IDN?" and "help" a spurious specifier need not be echoed; "describe" may answer with specifier "."',
